@@ -244,14 +244,17 @@ func c04Cases(docsPath string, tier string) ([]c04Case, error) {
 	n := 0
 	err := readNDJSON(docsPath, func(raw []byte) error {
 		var c struct {
-			G, T, Shape, Nest string
-			Doc               J
+			G, T, Shape, Nest, Base string
+			Doc                     J
 		}
 		if err := json.Unmarshal(raw, &c); err != nil {
 			return err
 		}
 		b := bytes.Buffer{}
 		hostileBytes(c.Doc, &b)
+		if c.Base == "rich" {
+			c.Nest += "+rich"
+		}
 		cases = append(cases, c04Case{id: fmt.Sprintf("doc:%s.%s:%s:%s", c.G, c.T, c.Shape, c.Nest), kinds: "json", data: b.Bytes(), g: c.G})
 		if n%997 == 0 && b.Len() < 400 {
 			bases = append(bases, b.Bytes())
